@@ -17,6 +17,7 @@
 -/
 import OPModel.Properties.C01
 import OPModel.Gen.Constants
+import OPModel.Model.Pinch
 
 namespace OP.C14
 open OP
@@ -43,5 +44,66 @@ theorem cascade_total (hot cold : List Seg) (t0 : Rat) (rest : List Rat)
 /-- only hot streams, no cold stream: still a result (a degenerate shape of the property) -/
 example : directTargets Gen.tol (Gen.activityFactor * Gen.tol) [190, 110] [⟨110, 190, 100, 100⟩] [] = .ok ⟨0, 8000, 0⟩ := by
   decide +kernel
+
+/-! ### reported temperatures stay inside the input envelope -/
+
+theorem mem_insertDesc (x y : Rat) : ∀ l : List Rat, y ∈ insertDesc x l → y = x ∨ y ∈ l := by
+  intro l
+  induction l with
+  | nil => intro h; simp [insertDesc] at h; exact Or.inl h
+  | cons z zs ih =>
+    intro h
+    unfold insertDesc at h
+    split_ifs at h with h1 h2
+    · rcases List.mem_cons.mp h with h | h
+      · exact Or.inl h
+      · exact Or.inr h
+    · exact Or.inr h
+    · rcases List.mem_cons.mp h with h | h
+      · exact Or.inr (by simp [h])
+      · rcases ih h with h | h
+        · exact Or.inl h
+        · exact Or.inr (List.mem_cons_of_mem _ h)
+
+/-- **Every row of the temperature grid is (the 6-decimal rounding of) an input temperature**: the
+    grid of `create_problem_table_with_t_int` invents no temperature. -/
+theorem grid_rows_are_inputs (dp : Nat) (temps : List Rat) :
+    ∀ t ∈ gridOf dp temps, ∃ x ∈ temps, t = roundDp dp x := by
+  unfold gridOf
+  induction temps with
+  | nil => intro t h; simp at h
+  | cons a as ih =>
+    intro t h
+    simp only [List.map_cons, List.foldr_cons] at h
+    rcases mem_insertDesc _ _ _ h with h | h
+    · exact ⟨a, by simp, h⟩
+    · obtain ⟨x, hx, e⟩ := ih t h
+      exact ⟨x, List.mem_cons_of_mem _ hx, e⟩
+
+theorem pyIndex_mem (xs : List Rat) (i : Int) (a : Rat) (h : pyIndex xs i = some a) : a ∈ xs := by
+  unfold pyIndex at h
+  simp only at h
+  split_ifs at h <;> exact List.mem_of_getElem? h
+
+/-- **The reported pinch temperatures are rows of the grid**: whatever the column, `pinch_temperatures`
+    returns two entries of the temperature column or nothing — hence temperatures inside any envelope
+    `[lo, hi]` that contains the grid. -/
+theorem pinch_temps_in_envelope (tol : Rat) (T h : List Rat) (lo hi a b : Rat)
+    (hT : ∀ t ∈ T, lo ≤ t ∧ t ≤ hi) (hp : pinchTemperatures tol T h = .ok (some (a, b))) :
+    (a ∈ T ∧ b ∈ T) ∧ lo ≤ a ∧ a ≤ hi ∧ lo ≤ b ∧ b ≤ hi := by
+  unfold pinchTemperatures at hp
+  simp only at hp
+  split_ifs at hp
+  · split at hp
+    · rename_i x y hx hy
+      cases hp
+      have ha := pyIndex_mem _ _ _ hx
+      have hb := pyIndex_mem _ _ _ hy
+      exact ⟨⟨ha, hb⟩, (hT _ ha).1, (hT _ ha).2, (hT _ hb).1, (hT _ hb).2⟩
+    · cases hp
+  · cases hp
+
+/-- Non-vacuity: the grid of four shifted bounds, one of them twice. -/
+example : gridOf 6 [190, 110, 170, 50, 110] = [190, 170, 110, 50] := by decide +kernel
 
 end OP.C14
